@@ -108,6 +108,28 @@ var fixtureDB = []string{
 	"CREATE PROCEDURE p1() SELECT COUNT(*) FROM t1",
 	"CREATE PROCEDURE pw() INSERT INTO t3 (v) VALUES (99)",
 	"CREATE EVENT ev1 ON SCHEDULE EVERY 1 DAY DISABLE DO SELECT 1",
+	// the table features of spec/ReadOnlyModes.tla (reps.go featureTable), all with columns (id, v)
+	"CREATE TABLE p1 (id INT PRIMARY KEY, v INT)",
+	"INSERT INTO p1 VALUES (1,1),(2,2),(3,3)",
+	"CREATE TABLE k1 (id INT NOT NULL, v INT)",
+	"INSERT INTO k1 VALUES (1,1),(2,2),(3,3)",
+	"CREATE TABLE a1 (id INT PRIMARY KEY AUTO_INCREMENT, v INT)",
+	"INSERT INTO a1 VALUES (1,1),(2,2),(3,3)",
+	"CREATE TABLE glog (n INT)",
+	"CREATE TABLE g1 (id INT PRIMARY KEY, v INT)",
+	"INSERT INTO g1 VALUES (1,1),(2,2),(3,3)",
+	"CREATE TRIGGER g1_bi BEFORE INSERT ON g1 FOR EACH ROW SET NEW.v = NEW.v + 100",
+	"CREATE TRIGGER g1_bu BEFORE UPDATE ON g1 FOR EACH ROW SET NEW.v = NEW.v + 100",
+	"CREATE TRIGGER g1_ad AFTER DELETE ON g1 FOR EACH ROW INSERT INTO glog VALUES (OLD.id)",
+	"CREATE TABLE f1 (id INT PRIMARY KEY, v INT)",
+	"INSERT INTO f1 VALUES (1,1),(2,2),(3,3)",
+	"CREATE TABLE f2 (id INT PRIMARY KEY, v INT, KEY fv (v), CONSTRAINT fkf FOREIGN KEY (v) REFERENCES f1(id) ON DELETE CASCADE ON UPDATE CASCADE)",
+	"INSERT INTO f2 VALUES (1,1),(2,2)",
+	"CREATE TABLE j1 (id INT PRIMARY KEY, v INT)",
+	"INSERT INTO j1 VALUES (1,1),(2,2)",
+	"CREATE PROCEDURE pdel() DELETE FROM p1",
+	"CREATE PROCEDURE pupd() UPDATE g1 SET v = v + 1",
+	"CREATE PROCEDURE pins() INSERT INTO a1 (v) SELECT v FROM j1",
 	"CREATE TABLE d2.x (i INT PRIMARY KEY, j INT)",
 	"INSERT INTO d2.x VALUES (1,1),(2,2)",
 }
@@ -288,13 +310,13 @@ func firstDiff(a, b string) string {
 	return ""
 }
 
-func runRep(mode string, r rep, tmp string) obs {
+func runRep(mode string, r rep, tmp, tab string) obs {
 	f, s := newFix(mode)
 	before := f.digestText()
 	var last result
 	tmp, _ = os.MkdirTemp(tmp, "run")
-	os.WriteFile(filepath.Join(tmp, "load.csv"), []byte("50,5\n51,6\n"), 0o644)
-	stmts := r.stmts(tmp)
+	os.WriteFile(filepath.Join(tmp, "load.csv"), []byte("50,1\n51,2\n"), 0o644) // second field: an existing f1.id (LOAD DATA into f2)
+	stmts := r.stmts(tmp, tab)
 	for _, q := range stmts {
 		last = s.exec(q)
 		if last.Kind == "err" || last.Kind == "panic" {
@@ -315,6 +337,7 @@ func runRep(mode string, r rep, tmp string) obs {
 type caseIn struct {
 	Mode  string `json:"mode"`
 	Kind  string `json:"kind"`
+	Tab   string `json:"tab"` // table feature (shape kinds); "" in hand-written witness cases = "any"
 	Class string `json:"class"`
 	Scope string `json:"scope"`
 }
@@ -327,6 +350,7 @@ type event struct {
 	Case     int    `json:"case"` // line of the case in the input
 	Mode     string `json:"mode"`
 	Kind     string `json:"kind"`
+	Tab      string `json:"tab"`
 	Rep      string `json:"rep"`
 	SQL      string `json:"sql"`
 	Out      string `json:"out"`
@@ -407,6 +431,9 @@ func main() {
 		if err := json.Unmarshal(line, &c); err != nil {
 			return err
 		}
+		if c.Tab == "" {
+			c.Tab = "any"
+		}
 		rs := byKind[c.Kind]
 		if len(rs) == 0 {
 			noRep = append(noRep, c.Kind)
@@ -416,16 +443,16 @@ func main() {
 			if (len(want) > 0 && !want[id]) || repIdx[r.name]%shN != shI {
 				continue
 			}
-			rw, ok := rwCache[r.name]
+			rw, ok := rwCache[r.name+"/"+c.Tab]
 			if !ok {
-				rw = runRep("none", r, tmp)
-				rwCache[r.name] = rw
+				rw = runRep("none", r, tmp, c.Tab)
+				rwCache[r.name+"/"+c.Tab] = rw
 			}
 			o := rw
 			if c.Mode != "none" {
-				o = runRep(c.Mode, r, tmp)
+				o = runRep(c.Mode, r, tmp, c.Tab)
 			}
-			ev := event{Ev: "x", ID: id, Case: i, Mode: c.Mode, Kind: c.Kind, Rep: r.name, SQL: strings.Join(r.stmts("$TMP"), " ;; "),
+			ev := event{Ev: "x", ID: id, Case: i, Mode: c.Mode, Kind: c.Kind, Tab: c.Tab, Rep: r.name, SQL: strings.Join(r.stmts("$TMP", c.Tab), " ;; "),
 				Out: o.Out, Msg: o.Msg, Changed: o.Changed, RwOut: rw.Out, RwMsg: rw.Msg, RwChange: rw.Changed,
 				Same: sameResult(r, o.res, rw.res), Diff: o.diff}
 			w.Write(ev)
